@@ -12,6 +12,7 @@ from common import cbytes, cbool, clist
 IMPORTS = 'From PND Require Import Lib.Text Model.Services Spec.Ps37Command Corr.CorrSvc.\n'
 
 VERIF = '1.2.840.10008.1.1'
+MR = '1.2.840.10008.5.1.4.1.1.4'
 CT = '1.2.840.10008.5.1.4.1.1.2'
 FIND = '1.2.840.10008.5.1.4.1.2.1.1'
 MOVE = '1.2.840.10008.5.1.4.1.2.1.2'
@@ -150,6 +151,8 @@ def run_provider(kind, rng):
     msg.message_id = mid
     msg.sop_class_uid = sop
     ctx = lab.ctx(pc, sop)
+    if kind == 'PStore' and rng.random() < 0.3:
+        ctx = lab.ctx(pc, CT if sop != CT else MR)       # the response repeats the REQUEST's class, not the context's
     err = None
     try:
         svc(lab.assoc, ctx, msg)
